@@ -137,8 +137,8 @@ type Plan struct {
 	// Lag > 0: final phase in which the chain grows by Lag blocks whose
 	// headers the peers serve while withholding their filter headers (block
 	// header tip above filter header tip), then LagCalls ask for those blocks.
-	Lag      int    `json:",omitempty"`
-	LagCalls []Call `json:",omitempty"`
+	Lag      int     `json:",omitempty"`
+	LagCalls []Call  `json:",omitempty"`
 	BudgetS  float64 // worst-case seconds of forced worker timeouts planned
 }
 
